@@ -19,6 +19,27 @@ def Ctx.mg (ctx : Ctx) (x : String) (g : Bool) : String := if ctx.inFn && !g the
 
 def ctxOf (s : St) : Ctx := ⟨inFunction s, s.funcCounter⟩
 
+/-- which helper routines the script has to contain (`_sah`, `_sch`, `_ssh`): the three flags of the converter -/
+structure Req where
+  sah : Bool
+  sch : Bool
+  ssh : Bool
+
+def Req.none : Req := ⟨false, false, false⟩
+def Req.or (a b : Req) : Req := ⟨a.sah || b.sah, a.sch || b.sch, a.ssh || b.ssh⟩
+
+/-- the converter state with more helper routines requested -/
+def reqSt (s : St) (r : Req) : St :=
+  { s with sahReq := s.sahReq || r.sah, schReq := s.schReq || r.sch, sshReq := s.sshReq || r.ssh }
+
+theorem reqSt_none (s : St) : reqSt s Req.none = s := by cases s; simp [reqSt, Req.none]
+theorem reqSt_reqSt (s : St) (a b : Req) : reqSt (reqSt s a) b = reqSt s (a.or b) := by simp [reqSt, Req.or, Bool.or_assoc]
+theorem adv_reqSt (s : St) (r : Req) (new : List Line) (n : Nat) : adv (reqSt s r) new n = reqSt (adv s new n) r := rfl
+theorem adv2_reqSt (s : St) (r : Req) (new : List Line) (n m : Nat) : adv2 (reqSt s r) new n m = reqSt (adv2 s new n m) r := rfl
+theorem ctxOf_reqSt (s : St) (r : Req) : ctxOf (reqSt s r) = ctxOf s := rfl
+theorem Req.or_none (a : Req) : a.or Req.none = a := by cases a; simp [Req.or, Req.none]
+theorem Req.none_or (a : Req) : Req.none.or a = a := by cases a; simp [Req.or, Req.none]
+
 theorem varName_ctx (s : St) (x : String) (g : Bool) : varName s x g = (ctxOf s).mg x g := by
   have e : ∀ n : Nat, toString n = n.repr := fun _ => rfl
   by_cases h : (inFunction s && !g) = true <;> simp [varName, Ctx.mg, ctxOf, fnPrefix, h, toString_str, e]
@@ -140,7 +161,41 @@ theorem Ctx.tn_ne_rv (ctx : Ctx) (i j : Nat) : ctx.tn i ≠ rvName j := by
   · exact prefixed_ne_rv _ _ _
   · intro e; exact rv_ne_tmp j i e.symm
 
+theorem Ctx.hn_ne_special (ctx : Ctx) (i : Nat) {y : String} (h : isSpecial y = true) : ctx.hn i ≠ y := by
+  simp only [Ctx.hn, Ctx.mg]
+  split
+  · exact fun e => special_ne_prefixed h _ _ e.symm
+  · exact fun e => special_ne_helper h i e.symm
+
+theorem Ctx.tn_ne_special (ctx : Ctx) (i : Nat) {y : String} (h : isSpecial y = true) : ctx.tn i ≠ y := by
+  simp only [Ctx.tn, Ctx.mg]
+  split
+  · exact fun e => special_ne_prefixed h _ _ e.symm
+  · exact fun e => special_ne_tmp h i e.symm
+
+theorem Ctx.mg_ne_special (ctx : Ctx) (x : String) (g : Bool) {y : String} (hx : goodName2 x = true) (h : isSpecial y = true) : ctx.mg x g ≠ y := by
+  simp only [Ctx.mg]
+  split
+  · exact fun e => special_ne_prefixed h _ _ e.symm
+  · exact fun e => good_ne_special (good2_good hx) (e ▸ h)
+
 /-! ### agreement -/
+
+/-- the text of the slice counter `_dvc` after `n` allocations -/
+def dvcStr (n : Nat) : String := if n = 0 then "" else toString n
+
+/-- slices: the counter, the elements of every slice in the array of its name, nothing beyond the counter -/
+structure HeapOK (c : SCfg) (m : Cfg) : Prop where
+  dvc : m.ρ "_dvc" = dvcStr c.next
+  heap : ∀ id, m.arr (Sem.Src.sliceName id) = (c.heap id).map Val.render
+  fresh : ∀ id, c.next < id → c.heap id = []
+
+theorem HeapOK.set_rho {c : SCfg} {m : Cfg} (h : HeapOK c m) (y w : String) (hy : y ≠ "_dvc") :
+    HeapOK c { m with ρ := m.ρ.set y w } :=
+  ⟨by show (m.ρ.set y w) "_dvc" = _; rw [Sem.set_other _ _ _ _ (fun e => hy e.symm)]; exact h.dvc, h.heap, h.fresh⟩
+
+theorem special_ne_dvc_of_not {y : String} (h : isSpecial y = false) : y ≠ "_dvc" := by
+  intro e; subst e; simp [isSpecial] at h
 
 /-- source configuration and shell configuration agree: same output so far, every global variable under its own
     name, every local variable of the running function under its prefixed name -/
@@ -149,6 +204,7 @@ structure AgreeF (ctx : Ctx) (c : SCfg) (m : Cfg) : Prop where
   out : c.out = m.out
   glob : ∀ x v, c.genv x = some v → goodName2 x = true ∧ m.ρ x = v.render
   loc : ctx.inFn = true → ∀ x v, c.lenv x = some v → goodName2 x = true ∧ m.ρ (fnPrefix ctx.k ++ x) = v.render
+  hp : HeapOK c m
 
 theorem AgreeF.read {ctx : Ctx} {c : SCfg} {m : Cfg} (h : AgreeF ctx c m) {x : Var} {v : Val} (hv : readVar c x = some v) :
     goodName2 x.name = true ∧ m.ρ (ctx.mg x.name x.global) = v.render := by
@@ -163,8 +219,8 @@ theorem AgreeF.read {ctx : Ctx} {c : SCfg} {m : Cfg} (h : AgreeF ctx c m) {x : V
 
 /-- a store update at a name that is no program variable keeps the agreement -/
 theorem AgreeF.set_other {ctx : Ctx} {c : SCfg} {m : Cfg} (h : AgreeF ctx c m) (y w : String)
-    (hy : ∀ x g, goodName2 x = true → ctx.mg x g ≠ y) : AgreeF ctx c { m with ρ := m.ρ.set y w } := by
-  refine ⟨h.inFn, h.out, ?_, ?_⟩
+    (hy : ∀ x g, goodName2 x = true → ctx.mg x g ≠ y) (hd : y ≠ "_dvc") : AgreeF ctx c { m with ρ := m.ρ.set y w } := by
+  refine ⟨h.inFn, h.out, ?_, ?_, h.hp.set_rho y w hd⟩
   · intro x v hx
     obtain ⟨hg, hv⟩ := h.glob x v hx
     refine ⟨hg, ?_⟩
@@ -182,19 +238,19 @@ theorem AgreeF.set_other {ctx : Ctx} {c : SCfg} {m : Cfg} (h : AgreeF ctx c m) (
 
 theorem AgreeF.set_hn {ctx : Ctx} {c : SCfg} {m : Cfg} (h : AgreeF ctx c m) (j : Nat) (w : String) :
     AgreeF ctx c { m with ρ := m.ρ.set (ctx.hn j) w } :=
-  h.set_other _ _ (fun x g hg => ctx.mg_ne_hn x g j hg)
+  h.set_other _ _ (fun x g hg => ctx.mg_ne_hn x g j hg) (ctx.hn_ne_special j (by decide))
 
 theorem AgreeF.set_tn {ctx : Ctx} {c : SCfg} {m : Cfg} (h : AgreeF ctx c m) (j : Nat) (w : String) :
     AgreeF ctx c { m with ρ := m.ρ.set (ctx.tn j) w } :=
-  h.set_other _ _ (fun x g hg => ctx.mg_ne_tn x g j hg)
+  h.set_other _ _ (fun x g hg => ctx.mg_ne_tn x g j hg) (ctx.tn_ne_special j (by decide))
 
 theorem AgreeF.set_flag {ctx : Ctx} {c : SCfg} {m : Cfg} (h : AgreeF ctx c m) (j : Nat) (w : String) :
     AgreeF ctx c { m with ρ := m.ρ.set (flagName j) w } :=
-  h.set_other _ _ (fun x g hg => ctx.mg_ne_flag x g j hg)
+  h.set_other _ _ (fun x g hg => ctx.mg_ne_flag x g j hg) (fun e => special_ne_flag (x := "_dvc") (by decide) j e.symm)
 
 theorem AgreeF.set_rv {ctx : Ctx} {c : SCfg} {m : Cfg} (h : AgreeF ctx c m) (j : Nat) (w : String) :
     AgreeF ctx c { m with ρ := m.ρ.set (rvName j) w } :=
-  h.set_other _ _ (fun x g hg => ctx.mg_ne_rv x g j hg)
+  h.set_other _ _ (fun x g hg => ctx.mg_ne_rv x g j hg) (fun e => special_ne_rv (x := "_dvc") (by decide) j e.symm)
 
 /-- writing a program variable on both sides -/
 theorem AgreeF.write {ctx : Ctx} {c : SCfg} {m : Cfg} (h : AgreeF ctx c m) (x : Var) (v : Val) (hx : goodName2 x.name = true) :
@@ -203,7 +259,10 @@ theorem AgreeF.write {ctx : Ctx} {c : SCfg} {m : Cfg} (h : AgreeF ctx c m) (x : 
   by_cases h1 : (ctx.inFn && !x.global) = true
   · have hin : ctx.inFn = true := by simp only [Bool.and_eq_true] at h1; exact h1.1
     simp only [h1, if_true]
-    refine ⟨by simp [h.inFn], h.out, ?_, ?_⟩
+    refine ⟨by simp [h.inFn], h.out, ?_, ?_, ⟨?_, h.hp.heap, h.hp.fresh⟩⟩
+    rotate_left 2
+    · show (m.ρ.set (fnPrefix ctx.k ++ x.name) v.render) "_dvc" = _
+      rw [Sem.set_other _ _ _ _ (special_ne_prefixed (x := "_dvc") (by decide) _ _)]; exact h.hp.dvc
     · intro y w hy
       obtain ⟨hg, hw⟩ := h.glob y w hy
       refine ⟨hg, ?_⟩
@@ -222,7 +281,10 @@ theorem AgreeF.write {ctx : Ctx} {c : SCfg} {m : Cfg} (h : AgreeF ctx c m) (x : 
         rw [Sem.set_other _ _ _ _ (fun e' => e (fnPrefix_inj e').2)]; exact hw
   · have h1' : (ctx.inFn && !x.global) = false := by simpa using h1
     simp only [h1', Bool.false_eq_true, if_false]
-    refine ⟨by simp [h.inFn], h.out, ?_, ?_⟩
+    refine ⟨by simp [h.inFn], h.out, ?_, ?_, ⟨?_, h.hp.heap, h.hp.fresh⟩⟩
+    rotate_left 2
+    · show (m.ρ.set x.name v.render) "_dvc" = _
+      rw [Sem.set_other _ _ _ _ (fun e => good_ne_special (good2_good hx) (by rw [← e]; decide))]; exact h.hp.dvc
     · intro y w hy
       by_cases e : y = x.name
       · subst e
